@@ -39,7 +39,11 @@ def mk_param(p):
             for k in ('start', 'end'):
                 if k in d:
                     naive = [t.tz_localize(None) if t.tzinfo is not None else t for t in d[k]]
-                    if da.startswith('datetime64'):
+                    if da == 'date_range_D':
+                        # consecutive days as a date index WITH a frequency, in the zone of the grid (pd.date_range(.., freq='D', tz=..))
+                        assert all((b - a) == pd.Timedelta(days=1) for a, b in zip(naive[:-1], naive[1:]))
+                        d[k] = pd.date_range(start=naive[0], periods=len(naive), freq='D', tz=_TZ[0])
+                    elif da.startswith('datetime64'):
                         d[k] = np.array([np.datetime64(t) for t in naive], dtype=da)
                     elif da == 'DatetimeIndex_aware' and _TZ[0] is not None:
                         d[k] = pd.DatetimeIndex(naive).tz_localize(_TZ[0])
